@@ -120,14 +120,14 @@ UNSUPPORTED = {}
 # (1) pseudoDensity() is zero at every temperature: Material.__init__ sets the *instance* attribute refDens = 0.0
 #     and these classes never assign it (Uranium assigns refDens = 19.07 as a *class* attribute, which the instance
 #     attribute shadows).  A component made of such a material is created with all number densities equal to zero.
-KNOWN_DEFECT_zero_pseudo_density = True
+KNOWN_DEFECT_zero_pseudo_density = False  # recorded in known_findings.jsonl
 ZERO_PSEUDO_DENSITY = ("Concrete", "Cu", "Uranium", "ZnO")
 # (2) density() of UThZr is zero at every temperature (refDens never assigned; only pseudoDensity is overridden).
-KNOWN_DEFECT_zero_density = True
+KNOWN_DEFECT_zero_density = False  # recorded in known_findings.jsonl
 ZERO_DENSITY = ("UThZr",)
 # (3) Air.pseudoDensity(Tc=...) always raises ValueError: it converts to Kelvin and then calls getTk(Tc, Tk) again
 #     with both arguments set.  (Tk=... works, which is how components call it.)
-KNOWN_DEFECT_air_celsius = True
+KNOWN_DEFECT_air_celsius = False  # repaired in /repo (fix: 3ea0111)
 CELSIUS_CALL_RAISES = ("Air",)
 
 
